@@ -10,7 +10,8 @@ THEOREMS = ["Econf.C03_lookup", "Econf.C03_nothing_else", "Econf.C03_no_duplicat
             "Econf.C03_new_keys_after_base", "Econf.C03_new_groups_last", "Econf.C03_groupless_first", "Econf.C03_bound",
             "Econf.C03_object", "Econf.C03_merge_spec", "Econf.Struct.api_frames"]
 RULE = ("pairs of entry lists over {group-less,A,B}x{x,y}: exhaustive up to the tier's length bound, built by parsing and by the setters "
-        "on all constructor kinds, plus random larger pairs; non-trivial = merge succeeded and both sides non-empty or one side an "
+        "on all constructor kinds, plus random larger pairs, pairs with valueless definitions, and pairs in which an input is the result of "
+        "econf_readDirs or a member of a history; non-trivial = merge succeeded and both sides non-empty or one side an "
         "empty object; distinct by (base list, override list, construction)")
 EXHAUSTIVE = {"quick": True, "thorough": True}
 ASSUMPTIONS = ["values compared as text (absent = empty), DESIGN.md 5.3"]
@@ -75,8 +76,25 @@ def valueless_pair(rng, sid):
     return gen_merge.merge_scenario(sid, b, o, "parse", "parse", spell_b=spell(b), spell_o=spell(o))
 
 
+def dirs_pair(rng, sid):
+    """one or both inputs are objects which a directory read handed to the caller (econf_readDirs result, history member)"""
+    cells = [(g, k) for g in (None, b"A", b"B") for k in (b"x", b"y", b"z")]
+
+    def lst():
+        l = [rng.choice(cells) for _ in range(rng.randint(1, 6))]
+        return sorted(l, key=lambda e: e[0] is not None) if not gen_merge.parseable(l) else l
+    hb, ho = rng.choice([("dirs", "parse"), ("parse", "dirs"), ("hist", "parse"), ("parse", "hist"), ("dirs", "hist"), ("set", "dirs"), ("hist", "set")])
+    b, o = lst(), lst()
+    if hb == "set":
+        b = list(dict.fromkeys(b))
+    if ho == "set":
+        o = list(dict.fromkeys(o))
+    return gen_merge.merge_scenario(sid, b, o, hb, ho)
+
+
 def scenarios(tier, rng):
     extra = [valueless_pair(rng, "v%d" % i) for i in range(600 if tier == "quick" else 15000)]
+    extra += [dirs_pair(rng, "d%d" % i) for i in range(400 if tier == "quick" else 10000)]
     if tier == "quick":
         out = list(pairs(2))
         out += list(pairs(3, rng, 0.02))
